@@ -839,6 +839,22 @@ Definition d_clause (sup out : N) (refresh_only : bool) (cfg : config) (kn : dkn
 (* C04 clause 5: a reported authorization detail of a type the server does not support; clause 6: outside the grant *)
 Definition mon_C04d : syscase -> N := run_details_monitor (d_clause 5 6 false).
 (* C10 clause 8: a refresh (or what introspection reports afterwards) widened the authorization details *)
-Definition mon_C10d : syscase -> N := run_details_monitor (d_clause 8 8 true).
+(* C10 clause 9: "later refreshes may return to the full grant" - a refresh that names no authorization
+   details answers with all the granted ones *)
+Definition d_clause_C10 (cfg : config) (kn : dknown) (o : op) (x : obs) : N :=
+  match d_clause 8 8 true cfg kn o x with
+  | 0 =>
+      match o, x with
+      | OpToken GRefreshToken r, Out (OTokens t) =>
+          match t_auth_details r, lookup (t_refresh r) (dk_rts kn) with
+          | None, Some di =>
+              if andb (cf_auth_details_enabled cfg) (negb (ad_list_eqb (tr_details t) (di_granted di))) then 9 else 0
+          | _, _ => 0
+          end
+      | _, _ => 0
+      end
+  | v => v
+  end.
+Definition mon_C10d : syscase -> N := run_details_monitor d_clause_C10.
 Definition mon_C04xd (c : syscase) : N := match mon_C04x c with 0 => mon_C04d c | k => k end.
 Definition mon_C10xd (c : syscase) : N := match mon_C10x c with 0 => mon_C10d c | k => k end.
